@@ -26,6 +26,8 @@ def NoStale (c : CState) : Prop :=
 /-- bookkeeping invariant: versions of pending requests are ≤ the counter -/
 def VersionsBelow (c : CState) : Prop := ∀ p ∈ c.l.pending, p.version ≤ c.l.version
 
+theorem applyMark_cache' (s : Store) (m : Option Nat) : (s.applyMark m).cache = s.cache := by cases m <;> rfl
+
 theorem changed_nil_iff (s : Store) (items : List (Key × String)) :
     changed s items = [] ↔ ∀ it ∈ items, curMd5 s it.1 = it.2 := by
   unfold changed curMd5
@@ -293,6 +295,35 @@ theorem tmp_breaks_no_stale :
   intro k ops h
   have := h ⟨1, [(k, "a")], 100⟩ (by decide) (k, "a") (by decide)
   exact absurd this.1 (by decide)
+
+
+/-- **… and the applied publish that follows does notify**, whatever it contains - in particular when it carries the
+very content the temporary value shows (the usual case: the follower stored what it forwarded): `set_config` takes the
+"unchanged" shortcut only for a value that is *not* temporary -/
+theorem publish_after_tmp_notifies (s : Store) (k : Key) (val : String) (now : Int) (p : SetParam) (hk : p.key = k) :
+    ((s.setTmp k val now).setConfig p).2 = true := by
+  have htmp : ∃ v, AL.get? ((s.setTmp k val now).applyMark p.mark).cache p.key = some v ∧ v.tmp = true := by
+    rw [applyMark_cache' , hk]
+    unfold Store.setTmp
+    cases hg : AL.get? s.cache k with
+    | none =>
+      exact ⟨{ content := val, md5 := val, tmp := true, hist := [], ctype := none, desc := none, lastModified := now },
+        by simp [Store.putCache, AL.get?_set_same], rfl⟩
+    | some v =>
+      exact ⟨{ v with tmp := true, md5 := val, content := val }, by simp [Store.putCache, AL.get?_set_same], rfl⟩
+  obtain ⟨v, hv, ht⟩ := htmp
+  unfold Store.setConfig
+  simp only [hv]
+  have : (v.refresh p.ctype p.desc).tmp = true := by simp [Value.refresh, ht]
+  simp [this]
+
+/-- hence every long-poll registered under the key is answered by that publish (with `change_answers_all`) -/
+theorem publish_after_tmp_answers (c : CState) (k : Key) (val : String) (now : Int) (p : SetParam) (hk : p.key = k)
+    (vs : List Nat) (hg : AL.get? c.l.byKey k = some vs) (q : Pending) (hq : q ∈ c.l.pending) (hv : q.version ∈ vs) :
+    Out.data q.version [k] ∈ (((c.step (.tmp k val now)).1).step (.publish p)).2 := by
+  have hn := publish_after_tmp_notifies c.store k val now p hk
+  simp only [CState.step, hn, if_true, hk]
+  exact List.mem_append_left _ (change_answers_all c.l k vs hg q hq hv)
 
 /-! ### timeouts -/
 
